@@ -382,6 +382,16 @@ class Inliner:
         self.log.append((fi.qualname, target.qualname))
         return pre + body, ret_expr
 
+    def _needs_lowering(self, fi, comp: ast.ListComp) -> bool:
+        for n in ast.walk(comp.elt):
+            if isinstance(n, ast.Call):
+                r = self._callee(fi, n, multi=True)
+                if r is not None:
+                    body = _body_without_doc(r[0].node)
+                    if not (len(body) == 1 and isinstance(body[0], ast.Return)):
+                        return True
+        return False
+
     def _expand_multi(self, fi, call: ast.Call, sink) -> Optional[List[ast.stmt]]:
         """Inline a callee with several returns at a statement-level call: every `return e` becomes sink(e)."""
         r = self._callee(fi, call, multi=True)
@@ -442,6 +452,31 @@ class Inliner:
                     h.body = self._process_block(fi, h.body)
             if isinstance(st, (ast.FunctionDef, ast.AsyncFunctionDef, ast.ClassDef)):
                 out.append(st)
+                continue
+            # T = [f(x) for x in S] with a statement-bodied new helper f: lower the comprehension to an append loop first
+            if isinstance(st, ast.Assign) and len(st.targets) == 1 and isinstance(st.targets[0], ast.Name) and isinstance(st.value, ast.ListComp) \
+                    and len(st.value.generators) == 1 and self._needs_lowering(fi, st.value):
+                comp = st.value
+                g = comp.generators[0]
+                tname = st.targets[0].id
+                app = ast.Expr(value=ast.Call(func=ast.Attribute(value=ast.Name(id=tname, ctx=ast.Load()), attr="append", ctx=ast.Load()), args=[comp.elt], keywords=[]))
+                body: List[ast.stmt] = [app]
+                for cond in reversed(g.ifs):
+                    body = [ast.If(test=cond, body=body, orelse=[])]
+                loop = ast.For(target=g.target, iter=g.iter, body=body, orelse=[], lineno=st.lineno, col_offset=st.col_offset)
+                init = ast.Assign(targets=[ast.Name(id=tname, ctx=ast.Store())], value=ast.List(elts=[], ctx=ast.Load()), lineno=st.lineno, col_offset=st.col_offset)
+                for n_ in ast.walk(loop):
+                    if not hasattr(n_, "lineno"):
+                        n_.lineno = st.lineno
+                        n_.col_offset = 0
+                for n_ in ast.walk(init):
+                    if not hasattr(n_, "lineno"):
+                        n_.lineno = st.lineno
+                        n_.col_offset = 0
+                _renumber([init, loop], st.lineno + 1 if not isinstance(st.lineno, _Line) else st.lineno, int(st.lineno) if not isinstance(st.lineno, _Line) else st.lineno.shown)
+                loop.body = self._process_block(fi, loop.body)
+                self.count += 1
+                out.extend([init, loop])
                 continue
             # statement-level call of a helper with several returns
             multi = None
